@@ -13,14 +13,10 @@ COMMON = dict(save_index=False, ignore_index=True, num_threads=1)
 
 
 def base_read(path):
+    """the unfiltered read with every return_* option on, in canonical piece form"""
     r = MixedLogReader(path, return_header=True, return_payload=True, return_bytes=True, return_offset=True,
                        return_message_index=True, **COMMON)
-    out = []
-    for h, p, b, o, i in r:
-        pt = p.get_p1_time() if p is not None else None
-        out.append({'off': int(o), 'size': len(b), 'type': int(h.message_type), 'src': int(h.source_identifier),
-                    't8': None if (pt is None or not pt) else round(float(pt) * 8), 'idx': int(i)})
-    return out
+    return [L.canon_result(x, [1, 1, 1, 1, 1]) for x in r]
 
 
 def run_case(case, path):
